@@ -7,11 +7,11 @@ VERIF = registry.VERIF
 props = [json.loads(l) for l in open(os.path.join(VERIF, "properties.jsonl"))]
 D = "of the whole daemon (real main, epoll loop, transports) in a simulated kernel; fork-per-case, ASan+UBSan, shrunk JSON replays"
 TECH = {
- "C01": "stateful model-based property testing (rapidcheck) " + D + "; oracle: reference model per step + replica rebuilt from received notifications",
+ "C01": "stateful model-based property testing (rapidcheck) plus coverage-guided model-based fuzzing (libFuzzer, in-process daemon) " + D + "; oracle: reference model per step + replica rebuilt from received notifications",
  "C02": "grammar-based property testing (rapidcheck) of request shapes/ids/batches " + D + "; oracle: reference model of the response discipline",
- "C03": "stateful model-based property testing (rapidcheck) of routed set/call histories " + D + "; oracle: model of the in-flight table, payload equality, id uniqueness",
+ "C03": "stateful model-based property testing (rapidcheck) plus coverage-guided model-based fuzzing (libFuzzer) of routed set/call histories " + D + "; oracle: model of the in-flight table, payload equality, id uniqueness",
  "C04": "stateful model-based property testing (rapidcheck) over adversarial/colliding paths " + D + "; oracle: reference map vs observer get + fetch-all replica after every step",
- "C05": "stateful property testing (rapidcheck) of connection ends in every protocol phase " + D + "; oracle: reference model for the other peers + descriptor-hygiene monitor",
+ "C05": "stateful property testing (rapidcheck) plus coverage-guided model-based fuzzing (libFuzzer) of connection ends in every protocol phase " + D + "; oracle: reference model for the other peers + descriptor-hygiene monitor",
  "C06": "structure-aware hostile-input property testing (rapidcheck) plus coverage-guided fuzzing (libFuzzer, in-process daemon) " + D + "; oracle: sanitizers, witness connection served, probe served",
  "C07": "stateful property testing (rapidcheck) with injected syscall failures plus coverage-guided fuzzing (libFuzzer) " + D + "; oracle: idle-baseline invariant, clean exit, hygiene monitor, heap cap",
  "C08": "model-based property testing (rapidcheck) over generated credential files, access declarations and origins " + D + "; oracle: group-intersection model + secret scan of all output",
